@@ -85,7 +85,7 @@ pub fn add_txn(p: &mut Prog, rng: &mut Rng, mix: &Mix, session_mode: bool) {
     p.new_txn();
     let mut kinds: Vec<&str> = vec!["auto", "auto"];
     if mix.explicit_txn { kinds.push("explicit"); kinds.push("explicit"); }
-    if mix.failed_txn { kinds.push("failed"); }
+    if mix.failed_txn { kinds.push("failed"); kinds.push("mid_error"); if mix.copy { kinds.push("copy_out_error"); } }
     if mix.extended { kinds.push("ext"); kinds.push("ext_in_txn"); }
     if mix.named { kinds.push("ext_named"); }
     if mix.pipelined { kinds.push("pipe_q"); kinds.push("pipe_ext"); }
@@ -100,6 +100,21 @@ pub fn add_txn(p: &mut Prog, rng: &mut Rng, mix: &Mix, session_mode: bool) {
         "auto" => {
             let sql = p.select(rows, pad, notice);
             p.simple(sql);
+        }
+        "mid_error" => {
+            // ErrorResponse in the middle of a result set
+            let t = p.tag();
+            let n = rng.range(2, 6);
+            p.simple(format!("SELECT '{}', sim_rows({}), sim_pad({}), sim_error_after({})", t, n, pad, rng.range(1, n - 1)));
+        }
+        "copy_out_error" => {
+            let t = p.tag();
+            let n = rng.range(2, 6);
+            p.simple(format!("COPY t TO STDOUT /* {} sim_rows({}) sim_pad({}) sim_error_after({}) */", t, n, pad, rng.range(1, n - 1)));
+            if rng.chance(0.6) {
+                // stay connected and idle for a while afterwards
+                p.think(rng.range(100, 1500));
+            }
         }
         "multi" => {
             let a = p.select(rows, pad, "");
@@ -347,7 +362,97 @@ pub fn c03(rng: &mut Rng, thorough: bool, idx: u64) -> Spec {
     spec
 }
 
+/// C04 sub-family: every kind of transaction ending (success, server error, error in the middle
+/// of a result set or of COPY OUT, CopyFail, failed block + ROLLBACK) followed by a long idle
+/// period of the same client, while other clients need the (small) pool with a connect_timeout
+/// shorter than the idle periods. A connection that is not released when the server reports the
+/// transaction finished shows up as a refusal while capacity was free.
+fn c04_idle_holders(rng: &mut Rng, thorough: bool) -> Spec {
+    let pool_size = rng.range(1, 2) as u32;
+    let mut cfg = single_pool("transaction", pool_size, 0);
+    cfg.set("connect_timeout", rng.range(300, 700));
+    if rng.chance(0.3) {
+        cfg.set("healthcheck_delay", 0);
+    }
+    let mut clients = Vec::new();
+    let nhold = rng.range(1, pool_size as u64 + 1) as u32;
+    for i in 0..nhold {
+        let id = i + 1;
+        let mut p = Prog::new(id);
+        let n = rng.range(1, if thorough { 5 } else { 3 });
+        for _ in 0..n {
+            p.new_txn();
+            let rows = rng.range(2, 6);
+            match rng.below(8) {
+                0 => {
+                    let t = p.tag();
+                    p.simple(format!("SELECT '{}', sim_error()", t));
+                }
+                1 => {
+                    let t = p.tag();
+                    p.simple(format!("SELECT '{}', sim_rows({}), sim_error_after({})", t, rows, rng.range(1, rows - 1)));
+                }
+                2 => {
+                    let t = p.tag();
+                    p.simple(format!("COPY t TO STDOUT /* {} sim_rows({}) sim_error_after({}) */", t, rows, rng.range(1, rows - 1)));
+                }
+                3 => {
+                    let t = p.tag();
+                    p.simple(format!("COPY t TO STDOUT /* {} sim_rows({}) */", t, rows));
+                }
+                4 => {
+                    let t = p.tag();
+                    let txn = p.t;
+                    p.steps.push(Step::CopyIn { sql: format!("COPY t FROM STDIN /* {} */", t), chunks: vec![100; rng.range(0, 3) as usize], fail: rng.chance(0.5), drop_after: None, txn });
+                }
+                5 => {
+                    let t = p.tag();
+                    p.simple(format!("BEGIN /* {} */", t));
+                    let t = p.tag();
+                    p.simple(format!("SELECT '{}', sim_error()", t));
+                    let t = p.tag();
+                    p.simple(format!("ROLLBACK /* {} */", t));
+                }
+                6 => {
+                    let m = ext_batch(&mut p, rng, "", ", sim_error()", 1, 0, 0, false, false);
+                    p.send(m);
+                }
+                _ => {
+                    let s = p.select(rows, 0, "");
+                    p.simple(s);
+                }
+            }
+            p.think(rng.range(800, 2500));
+        }
+        p.steps.push(Step::Terminate);
+        clients.push(client(id, "app", "db", "apppw", rng.range(0, 10), p.steps));
+    }
+    let nneedy = rng.range(1, 3) as u32;
+    for i in 0..nneedy {
+        let id = 10 + i;
+        let mut p = Prog::new(id);
+        for _ in 0..rng.range(4, 10) {
+            p.new_txn();
+            let s = p.select(1, 0, "");
+            p.simple(s);
+            p.think(rng.range(50, 400));
+        }
+        p.steps.push(Step::Terminate);
+        clients.push(client(id, "app", "db", "apppw", rng.range(20, 200), p.steps));
+    }
+    let net = if rng.chance(0.5) { net_calm() } else { net_swarm(rng) };
+    let mut spec = Spec { config_toml: cfg.render(), hosts: cfg.hosts(), net, clients, end: EndSpec { deadline_ms: 900_000, calm_ms: 500 }, ..Default::default() };
+    spec.params = params_from(&cfg);
+    spec.family = "capacity/idle_holders".into();
+    add_final_probes(&mut spec, &cfg, rng);
+    spec.oracles = vec!["c04_bound".into(), "c04_capacity".into(), "liveness".into()];
+    spec
+}
+
 pub fn c04(rng: &mut Rng, thorough: bool, idx: u64) -> Spec {
+    if idx % 3 == 2 {
+        return c04_idle_holders(rng, thorough);
+    }
     let faults = idx % 2 == 1;
     let mut mix = Mix::swarm(rng);
     mix.big_replies = rng.chance(0.3);
